@@ -42,10 +42,11 @@ func init() {
 		ID:    prop,
 		Level: "exploration",
 		Rule: "document entry points (chart dir/archive/memory -> CheckDependencies -> ProcessDependencies -> ToRenderValues -> Render -> SortManifests, and lint; chart archive bytes; values file + --set flags; repository index + Get/Merge/search; " +
-			"manifest stream; Secrets/ConfigMaps records + pkg/storage; provenance file + keyring; plugin.yaml): a valid baseline, every single atomic deviation of the table " +
+			"manifest stream; Secrets/ConfigMaps records + pkg/storage; whole release histories of 1..3 records, each record good / absent / one of 13 unreadable or 10 decodable-but-incomplete classes - so every history in which ALL records are unreadable is included - through Storage.Last/History/Deployed/Get/List and the actions status, get, get values, history, list, rollback, upgrade, uninstall; " +
+			"provenance file + keyring; plugin.yaml): a valid baseline, every single atomic deviation of the table " +
 			"(per field: null, wrong scalar type, list<->map, empty, missing, duplicate key, null list element, 10^4 characters, nesting 10^3, non-UTF-8, control characters, plus field-specific shapes), " +
-			"truncation of every small document at every byte, and every non-conflicting pair of the tier's pair set (quick: the deviations that survive loading; thorough: a larger set, all deviations for the small tables) " +
-			"and, thorough only, every triple of the chart deviations that meet in dependency processing and value computation; " +
+			"truncation of every small document at every byte, and every non-conflicting pair of the tier's pair set (quick: a core of the deviations that survive loading - 92 for the chart; thorough: a larger set - 318 for the chart - and all deviations for the small tables) " +
+			"and every triple of the release-history classes (quick: 9 classes per record, thorough: all 24) and, thorough only, of the 91 chart deviations that meet in dependency processing and value computation; " +
 			"string entry points: every string up to length 5 (quick) / 6 (thorough) over {a . = , [ ] { } \\ 0 -} plus index/nesting-limit variants for 43 strvals call variants (all parsers x 7 pre-populated destinations x 3 file readers), " +
 			"and up to length 4/5 over {a * ? / ! [ ] \\ - # LF SP .} for .helmignore parsing + matching. " +
 			"distinct = (entry point, deviation id set) or (entry point, input string): two distinct cases differ in their input bytes; non-trivial = every case but the empty string " +
@@ -71,6 +72,7 @@ func init() {
 			"provenance cases are signed with Helm's own test keypair (copied to checks/c20/testdata) with a fixed signature time, so that deviated message blocks carry a valid signature",
 			"the filter passed to driver.List is the trivial one; pkg/storage.Storage's own filters and sorters are part of Helm and are exercised",
 			"IndexFile.Merge is exercised in the direction Helm uses it (a generated index merges the loaded one)",
+			"the actions are driven over histories whose records are good, absent or unreadable; a record that decodes but lacks info/chart is given to pkg/storage only (C20_ODD_RECORD_ACTIONS=1 also gives it to the actions, which dereference Info/Chart of such a record in several places - reported to the maintainers, not part of the registered claim)",
 		},
 		RequiredFloors: requiredFloors(),
 	})
